@@ -272,7 +272,7 @@ pub fn body(d: &syn::Data) -> Sx {
 
 pub fn derive_input(di: &syn::DeriveInput) -> Sx {
     let (ilo, ihi) = sp2(di.ident.span());
-    let (ig, _, wc) = di.generics.split_for_impl();
+    let (_, _, wc) = di.generics.split_for_impl();
     tagged(
         "decl",
         vec![
@@ -282,7 +282,7 @@ pub fn derive_input(di: &syn::DeriveInput) -> Sx {
                 "generics",
                 vec![
                     list(di.generics.type_params().map(|p| st(p.ident.to_string())).collect()),
-                    st(toks(&ig)),
+                    st(toks(&di.generics)),
                     st(wc.map(|w| toks(w)).unwrap_or_default()),
                 ],
             ),
@@ -290,6 +290,18 @@ pub fn derive_input(di: &syn::DeriveInput) -> Sx {
             body(&di.data),
             ilo,
             ihi,
+        ],
+    )
+}
+
+pub fn type_param(t: &syn::TypeParam) -> Sx {
+    tagged(
+        "typaram",
+        vec![
+            st(t.ident.to_string()),
+            list(t.attrs.iter().map(attr).collect()),
+            list(t.bounds.iter().map(|b| st(toks(b))).collect()),
+            t.default.as_ref().map(|d| st(toks(d))).unwrap_or_else(none),
         ],
     )
 }
